@@ -658,7 +658,14 @@ def describe(a):
 class SpecEffects:
     """store / queue / stats effects per block of a body, specialised under a configuration
     assumption; effects of callees (methods of the same cache, helpers, synchronously-run closures)
-    are attributed to the call block, themselves specialised under the same assumption."""
+    are attributed to the call block, themselves specialised under the same assumption.
+
+    Effects are pairs (kind, key tag).  The key tag of a store removal says which *parameter* of
+    which function the removed key is (None when it is not a parameter, e.g. a selected victim), so
+    that the caller can tell "the operation's own key is replaced/purged" from "another entry is
+    evicted"; tags are translated through call arguments and closure captures."""
+
+    KEYED = ('S-',)
 
     def __init__(self, prog, fields, oracles=None, stop_at_operations=False, classify=None):
         from .effects import classify as default_classify
@@ -669,18 +676,64 @@ class SpecEffects:
         self._memo = {}
         self._stack = set()
         self.stop = stop_at_operations
+        self._res = {}
 
     def spec(self, body, upvar_env=None):
         return Spec(self.prog, body, self.fields, upvar_env=upvar_env, oracles=self.oracles)
 
+    def key_root(self, body, operand, depth=0):
+        """(function body id, parameter index) the operand's value comes from, through identity
+        conversions and closure captures; None otherwise"""
+        from .origin import Resolver, flatten
+        if depth > 6:
+            return None
+        if body.id not in self._res:
+            self._res[body.id] = Resolver(body, value_like=True)
+        outs = flatten(self._res[body.id].operand(operand))
+        if len(outs) != 1:
+            return None
+        o = outs[0]
+        if o[0] != 'param':
+            return None
+        if body.kind in ('fn', 'assoc_fn'):
+            return (body.id, o[1]) if not o[2] else None
+        # closure: param 1 is the environment; field k is capture k
+        if o[1] == 1 and len(o[2]) == 1 and o[2][0].isdigit():
+            par, ops = self.prog.closure_capture_operands(body)
+            k = int(o[2][0])
+            if ops is not None and k < len(ops):
+                return self.key_root(par, ops[k], depth + 1)
+        return None
+
     def kinds_at(self, body, b):
+        """[(kind, tag)] of the primitive effect(s) of the call ending block b"""
         t = body.term(b)
         if t['k'] != 'call':
             return []
         k = self._classify(t)
         if k is None:
             return []
-        return list(k) if isinstance(k, (list, tuple)) else [k]
+        ks = list(k) if isinstance(k, (list, tuple)) else [k]
+        out = []
+        for kk in ks:
+            tag = None
+            if kk in self.KEYED and len(t['args']) > 1:
+                tag = self.key_root(body, t['args'][1])
+            out.append((kk, tag))
+        return out
+
+    def _translate(self, body, b, cb, eff):
+        """effect of direct callee cb seen from its call site (body, b)"""
+        kind, tag = eff
+        if tag is None:
+            return eff
+        if tag[0] == cb.id:
+            t = body.term(b)
+            i = tag[1] - 1
+            if 0 <= i < len(t['args']):
+                return (kind, self.key_root(body, t['args'][i]))
+            return (kind, None)
+        return eff  # already rooted in an enclosing function (closure capture chain)
 
     def summary(self, body):
         key = body.id
@@ -694,36 +747,24 @@ class SpecEffects:
             out = set()
             for b in sp.reachable_blocks():
                 out |= set(self.kinds_at(body, b))
-                for cb in self._callees(body, b):
-                    out |= self.summary(cb)
+                for (cb, how) in self._callees(body, b):
+                    for e in self.summary(cb):
+                        out.add(self._translate(body, b, cb, e) if how == 'direct' else e)
         finally:
             self._stack.discard(key)
         self._memo[key] = out
         return out
 
-    def _callees(self, body, b):
+    def _callees(self, body, b, hows=('direct', 'closure')):
         from .effects import OPERATIONS
         out = []
         for (blk, cb, how) in self.prog.call_edges(body):
-            if blk != b or how in ('stored', 'dyn'):
+            if blk != b or how not in hows:
                 continue
             if self.stop and cb.name in OPERATIONS:
                 continue
-            out.append(cb)
+            out.append((cb, how))
         return out
-
-    def block_effects(self, body, sp=None):
-        """(spec, {block: [(kind, performer-name)]}) for reachable blocks"""
-        sp = sp or self.spec(body)
-        out = {}
-        for b in sp.reachable_blocks():
-            lst = [(k, body.name) for k in self.kinds_at(body, b)]
-            for cb in self._callees(body, b):
-                for kk in sorted(self.summary(cb)):
-                    lst.append((kk, cb.name))
-            if lst:
-                out[b] = lst
-        return sp, out
 
 
 class Weigher:
@@ -732,7 +773,11 @@ class Weigher:
     functions (each kind at most once).  Effects inside synchronously-run closures are *not*
     included here: Spec adds them per closure outcome."""
 
-    def __init__(self, prog, fields, vocab, oracles=None, classify=None, extra=None):
+    def __init__(self, prog, fields, vocab, oracles=None, classify=None, extra=None, own_key=None):
+        """own_key: (function body id, parameter index) of the key the analysed operation is about;
+        a store removal of exactly that key is counted as 'Srepl' (replacement / purge of the
+        operation's own entry), any other store removal as 'S-' (a victim)"""
+        self.own_key = own_key
         self.prog = prog
         self.vocab = list(vocab)
         self.dims = len(self.vocab)
@@ -745,17 +790,25 @@ class Weigher:
         key = (body.id, b)
         if key in self._memo:
             return self._memo[key]
-        ks = list(self.se.kinds_at(body, b))
+        effs = list(self.se.kinds_at(body, b))
+        for (cb, how) in self.se._callees(body, b, hows=('direct',)):
+            for e in sorted(self.se.summary(cb), key=str):
+                effs.append(self.se._translate(body, b, cb, e))
+        ks = []
+        for (k, tag) in effs:
+            if k == 'S-' and tag is not None and tag == self.own_key:
+                ks.append('Srepl')
+            else:
+                ks.append(k)
         if self.extra:
             ks += list(self.extra(body, b))
-        for (blk, cb, how) in self.prog.call_edges(body):
-            if blk == b and how == 'direct':
-                ks += sorted(self._summary(cb))
+            for (cb, how) in self.se._callees(body, b, hows=('direct',)):
+                ks += sorted(self._extra_summary(cb))
         self._memo[key] = ks
         return ks
 
-    def _summary(self, cb):
-        s = set(self.se.summary(cb))
+    def _extra_summary(self, cb):
+        s = set()
         if self.extra:
             # statement-level kinds of the callee and of everything it reaches
             seen = set()
